@@ -36,7 +36,7 @@ def gen_runs(tier):
     q = tier == "quick"
     runs = [
         # "reglong" is a generator tag (the cases are ordinary "reg" cases of length 22..48)
-        (ALL_KINDS + ["reglong", "pearwide"], dict(PearWideCols="{4, 5, 6}", RegsLens="{5, 8, 12}" if q else "{5, 8, 12, 16, 20}",RegLongLens="{22, 23, 24, 26, 28, 30, 32, 36, 40, 44, 47, 48}" if q else
+        (ALL_KINDS + ["reglong", "pearwide", "silwide"], dict(PearWideCols="{4, 5, 6}", RegsLens="{5, 8, 12}" if q else "{5, 8, 12, 16, 20}",RegLongLens="{22, 23, 24, 26, 28, 30, 32, 36, 40, 44, 47, 48}" if q else
                                        "{22, 23, 24, 25, 26, 28, 30, 32, 34, 36, 38, 40, 42, 44, 46, 47, 48}",
                          RocuLen=3, RocuRank=2 if q else 3,
                          CmLen=3 if q else 4, CmAlpha=3, CmBinLen=5 if q else 6,
@@ -148,7 +148,7 @@ def random_cases(ctx, scale=1.0):
         k = r.randint(2, 4)
         pos, lab = [], []
         for c in range(k):
-            m = r.randint(2, 4)
+            m = r.choice([2, 2, 3, 4, 6, 7])          # unequal cluster sizes: nearest cluster by mean, not by total
             centre = r.randint(0, 30)
             pts = [max(0, centre + r.randint(-4, 4)) for _ in range(m)]
             if len(set(pts)) < 2:
@@ -206,7 +206,8 @@ def build_cases(ctx):
     cases = []
     seen = set()
     for ks, over in gen_runs(ctx.tier):
-        ks = [k for k in ks if k in kinds or (k == "reglong" and "reg" in kinds) or (k == "pearwide" and "pear" in kinds)]
+        ks = [k for k in ks if k in kinds or (k == "reglong" and "reg" in kinds) or (k == "pearwide" and "pear" in kinds)
+              or (k == "silwide" and "sil" in kinds)]
         if not ks:
             continue
         consts = dict(GEN_BASE)
@@ -270,7 +271,7 @@ def run_conformance(ctx, binp):
                 "5/6; all score vectors over k/4 (length<=3/4) and k/2 (length<=4/5) with every truth assignment containing both "
                 "classes; ulp-neighbour scores (ranks 0..2/3 mapped to adjacent f32 values at 1/2, 0 and 1, length<=3/4); all lattice vector "
                 "pairs over -2..2 (length<=2) and -1..1/2 (length 3) and formula-built vectors of length 22..48; offset families (truth and prediction shifted by 2^11, 2^16, 2^20 in f32 and 1e6, 1e9, 2^40 in f64, integer and 1/8 spreads, length 5..12/20); two-column targets; sorted "
-                "collinear positions 0..3 with every 2-/3-clustering into clusters of >=2 distinct points (length<=5/6); all "
+                "collinear positions 0..3 with every 2-/3-clustering into clusters of >=2 distinct points (length<=5/6) and 320 three-/four-cluster layouts of unequal sizes where the cluster nearest by total distance is not the one nearest by mean distance; all "
                 "3x2, 3x3, 4x3 integer matrices with non-constant columns and 6x4..6x6 matrices from a pool of eight columns (both column orders),  [quick/thorough]; thorough adds seeded random longer "
                 "inputs (length<=40). Each case is run through every calling form (arrays, views, datasets), label type "
                 "(usize, String, bool) and float type, as given and after one permutation. non-trivial = prediction != truth "
